@@ -14,6 +14,8 @@ STRUCTURAL = {
     "END": "terminates the header: anything written after it is lost (replayed)",
     "HISTORY": "commentary card: it has no value field, the value comes back empty (replayed)",
     "CONTINUE": "continues the string of the preceding card: the value comes back empty (replayed)",
+    "PCOUNT": "parameter count of the HDU: cfitsio parses it as an integer whenever the HDU is opened; the string card an auxiliary entry produces makes the whole file unopenable (status 407, replayed)",
+    "GCOUNT": "group count of the HDU: as PCOUNT (replayed)",
 }
 
 
@@ -347,6 +349,8 @@ RESERVED_TABLE = {
     "END": ("exact", None, "terminates the header (D24); exact on purpose: ENDTIME, ENDCAP ... are ordinary user keys"),
     "HISTORY": ("exact", None, "commentary card without a value field (D46); exact: HISTORYX is an ordinary user key"),
     "CONTINUE": ("exact", None, "continuation card (D46); exact"),
+    "PCOUNT": ("exact", None, "structural: parsed as an integer when the HDU is opened (D61); exact"),
+    "GCOUNT": ("exact", None, "structural: parsed as an integer when the HDU is opened (D61); exact"),
     "EXTNAME": ("exact", None, "names the HDU for the reader's search by name (D54); exact"),
     "HDUNAME": ("exact", None, "cfitsio's fallback for EXTNAME in the search by name (D54); exact"),
 }
